@@ -345,6 +345,8 @@ def run(check):
         r_bk.violate('%s files a metric more than once' % sc.name, so, files[0], '%s.store files the metric in %s under its new count '
                      'without removing its previous filing: a left-over entry of a metric that was drained and stored again is taken for a '
                      'current one, and choose_item() hands out a metric that does not hold the maximum' % (sc.name, struct))
+  rule_strategy_chooses(check, cx, check.rule('R-C17-strategy-chooses', 2, 'with a strategy configured, the drained metric is always the choice the strategy made in that call'))
+  rule_no_outside_autoviv(check, cx, r_ne)
 
 
 def _false_at_zero_lag(test, lag_names):
@@ -575,3 +577,96 @@ def _pass_shape(gen):
     if hands_out(y):
       probs.append(('a yield outside the drain loop hands out `%s`' % short(y, 40), y))
   return probs
+
+
+def rule_strategy_chooses(check, cx, rule):
+  """whenever a strategy is configured, the metric drain_metric() removes is the one strategy.choose_item() handed out in that
+  very call: every definition of the drained name is the strategy's answer, or sits on the branch where `self.strategy` tested
+  false.  A shortcut that takes a metric from the cache behind the strategy's back ('only one metric cached') leaves the name
+  in the running pass's snapshot / in a bucket; handed out later, _pop() raises KeyError and draining fails."""
+  from ..rulelib import reaching_defs, value_assigned
+  fn = cx.fn('carbon.cache', '_MetricCache.drain_metric')
+  if not rule.require(fn is not None, '_MetricCache.drain_metric not found'):
+    return
+  g = cx.cfg(fn)
+  me = fn.params[0]
+
+  def no_strategy_edge(src, lab, dst):
+    if not isinstance(lab, tuple):
+      return False
+    pol, t = lab
+    neg = False
+    while isinstance(t, ast.UnaryOp) and isinstance(t.op, ast.Not):
+      t, neg = t.operand, not neg
+    return isinstance(t, ast.Attribute) and t.attr == 'strategy' and dotted(t.value) == me and pol == ('T' if neg else 'F')
+  rets = [n for n in g.nodes if n.kind == 'stmt' and isinstance(n.ast, ast.Return) and isinstance(n.ast.value, ast.Tuple) and
+          len(n.ast.value.elts) == 2 and isinstance(n.ast.value.elts[0], ast.Name)]
+  if not rule.require(bool(rets), 'drain_metric has no `return (metric, ...)`'):
+    return
+  judged = set()
+  for r in rets:
+    name = r.ast.value.elts[0].id
+    todo, seen = [(name, r)], set()
+    while todo:
+      nm, at = todo.pop()
+      for d in reaching_defs(g, nm, at):
+        if d in seen or d is g.entry:
+          continue
+        seen.add(d)
+        v = value_assigned(d, nm)
+        if isinstance(v, ast.Name):
+          todo.append((v.id, d))
+          continue
+        if isinstance(v, tuple) and v[0] == 'unpack' and isinstance(v[1], ast.Name) and v[2] and len(v[2]) == 1:
+          # metric, index = taken   with   taken = (m, popped) | None   built earlier in the call
+          followed = True
+          for d2 in reaching_defs(g, v[1].id, d):
+            v2 = value_assigned(d2, v[1].id) if d2 is not g.entry else None
+            if isinstance(v2, ast.Constant) and v2.value is None:
+              continue
+            if isinstance(v2, ast.Tuple) and v[2][0] < len(v2.elts) and isinstance(v2.elts[v[2][0]], ast.Name):
+              todo.append((v2.elts[v[2][0]].id, d2))
+            else:
+              followed = False
+          if followed:
+            continue
+        if id(d) in judged:
+          continue
+        judged.add(id(d))
+        is_choice = isinstance(v, ast.Call) and isinstance(v.func, ast.Attribute) and v.func.attr == 'choose_item' and \
+            (dotted(v.func.value) or '').endswith('strategy')
+        if is_choice:
+          rule.ok('drained metric = strategy.choose_item()', fn.loc(d.ast))
+        elif isinstance(v, ast.Constant) and v.value is None:
+          continue
+        elif g.dominated_by_edge(d, no_strategy_edge):
+          rule.ok('no strategy configured: `%s`' % short(d.ast, 40), fn.loc(d.ast))
+        else:
+          rule.violate('metric chosen behind the strategy\'s back', fn, d.ast, '`%s` picks the metric to drain without asking the '
+                       'configured strategy (the definition is reachable while self.strategy is set): the strategy still holds the '
+                       'name in its snapshot / bucket and hands it out again after it left the cache' % short(d.ast, 60))
+
+
+def rule_no_outside_autoviv(check, cx, rule):
+  """code outside the cache class never indexes the MetricCache (`cache[metric]`): it is a defaultdict, so a look-up of a metric
+  that has already been drained CREATES an empty entry - outside the lock and without the strategy hearing of it - which a
+  drain then hands out as a metric without datapoints while others hold some.  Membership tests and .get() are the read API."""
+  n = 0
+  for fn in check.repo.all_functions():
+    if (fn.cls is not None and fn.cls.name == '_MetricCache') or isinstance(fn.node, ast.Lambda):
+      continue
+    recv = {t.id for st in ast.walk(fn.node) if isinstance(st, ast.Assign) and isinstance(st.value, ast.Call) and
+            (dotted(st.value.func) or '').split('.')[-1] == 'MetricCache' for t in st.targets if isinstance(t, ast.Name)}
+    recv |= {k for k, vals in fn.module.globals.items() if any(isinstance(v, ast.Call) and (dotted(v.func) or '').split('.')[-1] == 'MetricCache' for v in vals)}
+    if not recv:
+      continue
+    n += 1
+    bad = [x for x in walk_no_nested(fn.node, include_self=False) if isinstance(x, ast.Subscript) and isinstance(x.ctx, ast.Load) and
+           isinstance(x.value, ast.Name) and x.value.id in recv]
+    for x in bad:
+      rule.violate('auto-vivifying read outside the cache', fn, x, '`%s` indexes the MetricCache defaultdict from %s: for a metric that '
+                   'is not cached this creates an empty entry (without the lock, unknown to the strategy) that a later drain hands out '
+                   'without datapoints' % (short(x, 40), fn.qualname))
+    if not bad:
+      rule.ok('%s reads the cache through `in` / .get() / its methods only' % fn.qualname, fn.loc(fn.node))
+  rule.require(n >= 1, 'no user of MetricCache() found outside carbon.cache')
